@@ -358,7 +358,7 @@ def run(tier, seed, started):
     res = farm(run_case, cases, seed=seed, chunk=1)
     c = res.counters
     if res.sets.get('shapes') != set(SHAPES) or c.get('cancel_instants', 0) < sum(lengths.values()) * 0.9:
-        raise common.Broken(f'vacuous C06 run: {c} {lengths}')
+        common.vacuous(PROP, res, f'vacuous C06 run: {c} {lengths}')
     coverage = {
         'evaluations': c['executions'],
         'distinct_nontrivial': len(res.sets.get('schedules', ())),
